@@ -39,6 +39,16 @@ func initRegex() {
 	)
 	Def(
 		c,
+		"==",
+		func(_ *Thread, args []value.Value) (value.Value, value.Value) {
+			self := args[0].MustReference().(*value.Regex)
+			other := args[1]
+			return self.EqualVal(other), value.Undefined
+		},
+		DefWithParameters(1),
+	)
+	Def(
+		c,
 		"to_string",
 		func(_ *Thread, args []value.Value) (value.Value, value.Value) {
 			self := args[0].MustReference().(*value.Regex)
